@@ -25,6 +25,37 @@ type Op struct {
 // cached state within a thread).
 func PairPrograms(sigPrefix string, reset func(), ops []Op, seq int) []Program {
 	var ps []Program
+	// self-check: alone, on the instrumented source and from the reset state,
+	// every op must return what the uninstrumented package returns; anything
+	// else is an artefact of the instrumentation (or a non-deterministic op)
+	// and is reported as a harness error, never as a violation
+	for i := range ops {
+		a := ops[i]
+		ps = append(ps, Program{
+			Name:     "solo/" + a.Name,
+			MaxSteps: 20000,
+			Body: func() func(Outcome) Verdict {
+				reset()
+				var got []string
+				GoNamed("T1:"+a.Name, func() {
+					for n := 0; n <= seq; n++ {
+						got = append(got, a.Run())
+					}
+				})
+				return func(o Outcome) Verdict {
+					if o.Panic != "" || o.Deadlock {
+						return Verdict{Sig: "HARNESS:solo-call-failed", What: fmt.Sprintf("%s alone on the instrumented source: panic=%q blocked=%v", a.Name, o.Panic, o.Blocked), Obs: "harness"}
+					}
+					for n, g := range got {
+						if g != a.Want {
+							return Verdict{Sig: "HARNESS:solo-result-differs", What: fmt.Sprintf("call %d of %s alone on the instrumented source returned %s, the uninstrumented package returns %s", n+1, a.Name, clip(g), clip(a.Want)), Obs: "harness"}
+						}
+					}
+					return Verdict{Obs: "solo:" + a.Kind}
+				}
+			},
+		})
+	}
 	for i := range ops {
 		for j := i; j < len(ops); j++ {
 			a, b := ops[i], ops[j]
